@@ -44,6 +44,76 @@ def run_case(rp, tasks, calls):
     return out, pubs, err
 
 
+def run_chain(rp, before, after, pmgr_cbs, final_state='FAILED'):
+    """the real Pilot._update with application callbacks on the pilot (registered before / after the
+    task manager's, which the real TaskManager.add_pilots registers) and on the pilot manager; every
+    callback is (id, raises).  Returns the ids of the callbacks that were called, in order; the task
+    manager's callback is id 0; plus the state of a task bound to the pilot afterwards."""
+    import threading as mt
+    tm = stubs.make_tmgr(rp)
+    tm.publish = lambda *a, **k: None
+    pm = object.__new__(rp.PilotManager)
+    pm._uid, pm._log = 'pmgr.verif', rpload.NullLog()
+    pm._pcb_lock = mt.RLock()
+    pm._callbacks = {m: dict() for m in rp.constants.PMGR_METRICS}
+    pilot = object.__new__(rp.Pilot)
+    pilot._uid, pilot._state, pilot._log, pilot._pmgr = 'pilot.0000', 'PMGR_ACTIVE', rpload.NullLog(), pm
+    pilot._cb_lock = mt.RLock()
+    pilot._callbacks = {m: dict() for m in rp.constants.PMGR_METRICS}
+    pilot._pilot_dict = {'uid': 'pilot.0000', 'state': 'PMGR_ACTIVE'}
+    class _Sub(object):
+        def stop(self): pass
+    pilot._sub = _Sub()
+    pilot._tmgr = None
+    pilot.attach_tmgr = lambda t: setattr(pilot, '_tmgr', t)
+    pilot.as_dict = lambda: dict(pilot._pilot_dict)
+    called, keep = [], []
+    def mk(i, raises):
+        def cb(*a):
+            called.append(i)
+            if raises: raise RuntimeError('application callback %d' % i)
+        keep.append(cb)                 # ids of callbacks are their memory addresses: keep them alive
+        return cb
+    for i, r in before: pilot.register_callback(mk(i, r))
+    orig = tm._pilot_state_cb
+    def tm_cb(pilots, state=None):
+        called.append(0)
+        return orig(pilots, state)
+    tm._pilot_state_cb = tm_cb
+    tm.add_pilots(pilot)
+    for i, r in after: pilot.register_callback(mk(i, r))
+    for i, r in pmgr_cbs: pm.register_callback(mk(i, r))
+    task = stubs.make_task(rp, tm, 'task.000000', 'AGENT_EXECUTING', pilot='pilot.0000')
+    try:
+        pilot._update({'uid': 'pilot.0000', 'state': final_state})
+    except RuntimeError:
+        pass
+    return called, task.state
+
+
+def chain_part(ctx, rp):
+    rng = ctx.rng
+    ops, impl = [], []
+    cases = [([], [], [(7, True)]), ([(3, False)], [(4, True)], [(7, False)]), ([(3, True)], [], [])]
+    for _ in range(ctx.n(150, 4000)):
+        ids = iter(range(1, 20))
+        mk = lambda n: [(next(ids), rng.random() < 0.3) for _ in range(n)]
+        cases.append((mk(rng.choice([0, 0, 1, 2])), mk(rng.choice([0, 1, 2])), mk(rng.choice([0, 1, 2, 3]))))
+    for before, after, pm in cases:
+        called, tstate = run_chain(rp, before, after, pm)
+        op = {'op': 'cbchain', 'pilot': [{'id': i, 'raises': r} for i, r in before] + [{'id': 0, 'raises': False}]
+                                      + [{'id': i, 'raises': r} for i, r in after],
+              'pmgr': [{'id': i, 'raises': r} for i, r in pm]}
+        ops.append(op); impl.append(called)
+        ctx.case(op, nontrivial=any(r for _, r in pm + after))
+        if not any(r for _, r in before) and (0 not in called or tstate != 'FAILED'):
+            ctx.fail('callbacks:dead-pilot-keeps-its-tasks',
+                     'no callback registered on the pilot before the task manager raises, yet the task manager was %s '
+                     'and the task of the dead pilot is %s (callbacks called: %s)' % ('called' if 0 in called else 'not called', tstate, called),
+                     {'chain': {'before': before, 'after': after, 'pmgr': pm}}, observed=called)
+    common.compare(ctx, 'states', ops, impl, what='real Pilot._update callback chain (pilot-level incl. the task manager, then pilot manager level; raising callbacks)')
+
+
 def monitor(rp, tasks, calls, out, err):
     FINAL = rp.states.FINAL
     if err:
@@ -78,6 +148,7 @@ CORPUS = [
 
 def run(ctx):
     rp   = rpload.load()
+    chain_part(ctx, rp)
     tsts = [s for s in rp.states._task_state_values if s is not None]
     psts = [s for s in rp.states._pilot_state_values if s is not None]
     cases = list(CORPUS)
@@ -143,6 +214,11 @@ def run(ctx):
 def replay(ctx, data):
     rp = rpload.load()
     inp = data['input']
+    if 'chain' in inp:
+        c = inp['chain']
+        called, tstate = run_chain(rp, [tuple(x) for x in c['before']], [tuple(x) for x in c['after']], [tuple(x) for x in c['pmgr']])
+        print('observed: called', called, 'task', tstate)
+        return any(r for _, r in c['before']) or (0 in called and tstate == 'FAILED')
     out, pubs, err = run_case(rp, inp['tasks'], [[tuple(x) for x in c] for c in inp['calls']])
     bad = monitor(rp, inp['tasks'], inp['calls'], out, err)
     print('observed:', out, err, bad)
